@@ -586,10 +586,7 @@ impl<'a> RefCtx<'a> {
                     Some(c) => c,
                 };
                 if !(c1 == Cmp::Gt || c1 == Cmp::Eq) {
-                    // the upper bound still has to be a well-formed operand
-                    if let Opd::Elem(_) | Opd::Attr = &ops[2] {
-                        self.value(&ops[2], path)?;
-                    }
+                    // already FALSE: the upper bound need not be evaluated
                     return b(false);
                 }
                 let v2 = self.value(&ops[2], path)?;
@@ -684,6 +681,19 @@ impl<'a> RefCtx<'a> {
                         }
                         if s.contains('\n') {
                             self.tag("like-newline");
+                        }
+                        // an escaped backslash directly before a wildcard or list
+                        let pc: Vec<char> = p.chars().collect();
+                        let mut i = 0;
+                        while i < pc.len() {
+                            if pc[i] == '\\' {
+                                if i + 2 < pc.len() && pc[i + 1] == '\\' && matches!(pc[i + 2], '%' | '_' | '[') {
+                                    self.tag("like-escaped-backslash");
+                                }
+                                i += 2;
+                            } else {
+                                i += 1;
+                            }
                         }
                         match like_tokens(p) {
                             None => Ok(RV::Unknown), // malformed pattern: not specified
@@ -970,6 +980,9 @@ fn gen_case(rng: &mut Rng, out: &mut Vec<String>) {
         for k in 0..count {
             let o = if op == Op::Cast && k == 1 && rng.chance(5, 6) {
                 gen_literal(rng, 4)
+            } else if op == Op::Like && k == 1 && rng.chance(9, 10) {
+                // the pattern operand comes from the pattern grammar (modelled regex subset)
+                Opd::Lit(Lit::Str(Some(gen_pattern(rng))))
             } else if i + 1 < n && rng.chance(2, 5) {
                 Opd::Elem(rng.range(i as i64 + 1, n as i64 - 1) as u32)
             } else if malformed && rng.chance(1, 4) {
